@@ -292,7 +292,11 @@ def run_required(ctx, prog, S, M, T):
         # the other way the repository empties an element of one kind of child: `E.remove_all("a:p", ...)`
         wipes = [n for n in ast.walk(g.node) if isinstance(n, ast.Call) and isinstance(n.func, ast.Attribute) and n.func.attr == "remove_all"
                  and n.args and all(isinstance(a, ast.Constant) and isinstance(a.value, str) for a in n.args)]
-        if not loops and not wipes:
+        # ... and `other.extend(E.<x>_lst)`: lxml moves every listed child over to `other`
+        moves_all = [n for n in ast.walk(g.node) if isinstance(n, ast.Call) and isinstance(n.func, ast.Attribute) and n.func.attr == "extend"
+                     and len(n.args) == 1 and isinstance(n.args[0], ast.Attribute) and n.args[0].attr.endswith("_lst")
+                     and ast.unparse(n.func.value) != ast.unparse(n.args[0].value)]
+        if not loops and not wipes and not moves_all:
             continue
         fc = FCtx(g)
         sites = []   # (node, emptied element expression, [child tags])
@@ -317,6 +321,16 @@ def run_required(ctx, prog, S, M, T):
             sites.append((lp, src, sorted(ctags), "%s_lst" % prop))
         for w in wipes:
             sites.append((w, w.func.value, [a.value for a in w.args], "remove_all"))
+        for mv in moves_all:
+            src = mv.args[0].value
+            prop = mv.args[0].attr[:-4]
+            ctags = set()
+            for a in T.expr(src, fc):
+                if a[0] == "inst":
+                    decl = next((d for d in M.child_decls(a[1]) if d.prop == prop), None)
+                    if decl is not None:
+                        ctags.add(decl.tags[0])
+            sites.append((mv, src, sorted(ctags), "%s_lst" % prop))
         for node, src, ctags, how in sites:
             srcs = ast.unparse(src)
             req = []
